@@ -622,3 +622,14 @@ Proof.
     rewrite (proj2 (basis_spec n i) j H). reflexivity.
   - replace (Nat.leb n j) with true by (symmetry; apply Nat.leb_le; exact H). reflexivity.
 Qed.
+
+(* call histories: in the model a later call cannot disturb an earlier register *)
+Lemma vhist_extends prog : forall regs regs',
+  vhist prog regs = Ok regs' -> exists ext, regs' = regs ++ ext /\ length ext = length prog.
+Proof.
+  induction prog as [|ins prog IH]; intros regs regs' H; cbn [vhist] in H.
+  - injection H as <-. exists []. split; [symmetry; apply app_nil_r|reflexivity].
+  - destruct (vstep regs ins) as [v| | |] eqn:E; cbn [obind] in H; try discriminate.
+    apply IH in H as [ext [-> L]]. exists (v :: ext). split; [rewrite <- app_assoc; reflexivity|].
+    cbn [length]. now rewrite L.
+Qed.
